@@ -350,7 +350,7 @@ def rcStep (d : RcDrv) (line : String) : RcDrv × String :=
   match w with
   | "setup" :: rest => ({ d with setup := d.setup.push (" ".intercalate rest) }, "")
   | "schedule" :: rest => (d, "\n".intercalate (rcRun d (rest.filterMap (·.toNat?))))
-  | ["seed", _] | ["maxsteps", _] => (d, "")
+  | ["seed", _] | ["maxsteps", _] | ["delay", _, _] => (d, "")
   | ["---"] => ({}, "---")
   | t :: "nested" :: _ :: rest =>
     match (t.drop 1).toString.toNat?, parseSym rest with
@@ -511,6 +511,9 @@ structure ItDrv where
   cap : Nat := 278
   prefill : Nat := 0
   scripts : Array (List (String × Iter.Cmd)) := #[]
+  /-- threads that drain a batch handed out by `pending()` during the setup (on the empty pipe): they
+      start in the state such a call leaves, `scan .pending 0` -/
+  drains : List (Nat × String) := []
 
 def parseItCmd (w : List String) : Option Iter.Cmd :=
   match w with
@@ -526,9 +529,17 @@ def itRun (d : ItDrv) (sched : List Nat) : List String := Id.run do
   let mut s := Iter.Sys.init d.watched d.cap d.prefill (d.scripts.toList.map (fun l => l.map (·.2)))
   let mut texts := d.scripts.map (fun l => l.map (·.1))
   let mut lines : Array String := #[]
+  let mut toStart := d.drains
+  for (t, _) in d.drains do
+    s := Iter.setT s t { script := [], pc := .scan .pending 0 }
   for t in sched do
     let th := s.threads[t]?.getD { script := [], pc := .idle }
     let atStart := match th.pc with | .idle => true | _ => false
+    match toStart.find? (·.1 == t) with
+    | some (_, tx) =>
+      lines := lines.push s!"t{t} call {tx}"
+      toStart := toStart.filter (·.1 != t)
+    | none => pure ()
     if atStart then
       match texts[t]?.getD [] with
       | tx :: rest =>
@@ -565,7 +576,13 @@ def itRun (d : ItDrv) (sched : List Nat) : List String := Id.run do
 def itStep (d : ItDrv) (line : String) : ItDrv × String :=
   match line.trimAscii.toString.splitOn " " with
   | "setup" :: "watch" :: rest => ({ d with watched := d.watched ++ rest.filterMap (·.toNat?) }, "")
-  | ["setup", "fill"] | ["setup", "style", _] | ["seed", _] | ["maxsteps", _] => (d, "")
+  | ["setup", "fill"] | ["setup", "style", _] | ["seed", _] | ["maxsteps", _] | ["setup", "batches", _] => (d, "")
+  | [t, "drain", k] =>
+    match (t.drop 1).toString.toNat? with
+    | some t =>
+      let scripts := if d.scripts.size ≤ t then d.scripts ++ Array.replicate (t + 1 - d.scripts.size) [] else d.scripts
+      ({ d with scripts := scripts, drains := d.drains ++ [(t, s!"drain {k}")] }, "")
+    | none => (d, "bad-op")
   | ["cap", c, "prefill", p] => ({ d with cap := c.toNat?.getD 278, prefill := p.toNat?.getD 0 }, "")
   | "schedule" :: rest => (d, "\n".intercalate (itRun d (rest.filterMap (·.toNat?))))
   | ["---"] => ({}, "---")
@@ -761,6 +778,90 @@ def piStep (d : PiDrv) (line : String) : PiDrv × String :=
   | ["final"] => (d, s!"fd={if d.closed then "closed" else "open"}")
   | _ => (d, "bad-op")
 
+/-! ### front-ends at operation level (L8 run sequentially) -/
+
+structure SqDrv where
+  s : Iter.Sys := Iter.Sys.init [] 278 0 [[], []]
+  dead : Bool := false
+
+/-- run thread `t` until it is idle with an empty script, blocks, or `stop` says so -/
+def sqRun (s : Iter.Sys) (t : Nat) (stop : Iter.Out → Bool) : Nat → Iter.Sys × List Iter.Out × Bool
+  | 0 => (s, [], false)
+  | fuel + 1 =>
+    match s.threads[t]? with
+    | none => (s, [], false)
+    | some th =>
+      if th.pc == .idle && th.script.isEmpty then (s, [], false)
+      else
+        match Iter.step Gen.pollRechecksClosed s t with
+        | none => (s, [], true)
+        | some (s', o) =>
+          if stop o then (s', [o], false)
+          else
+            let r := sqRun s' t stop fuel
+            (r.1, o :: r.2.1, r.2.2)
+
+def sqSet (s : Iter.Sys) (t : Nat) (f : Iter.Thread → Iter.Thread) : Iter.Sys :=
+  match s.threads[t]? with
+  | some th => Iter.setT s t (f th)
+  | none => s
+
+def fmtYields (os : List Iter.Out) : String :=
+  "[" ++ ", ".intercalate ((os.filterMap (·.yielded)).map toString) ++ "]"
+
+def sqStep (d : SqDrv) (line : String) : SqDrv × String :=
+  match line.trimAscii.toString.splitOn " " with
+  | ["---"] => ({}, "exit continues\n---")
+  | w =>
+    if d.dead then (d, "") else
+    match w with
+    | "new" :: _ :: sigs =>
+      ({ s := Iter.Sys.init (sigs.filterMap (·.toNat?)) 278 0 [[], []] }, "ok")
+    | "raise" :: sg :: rest =>
+      let n := (rest.head?.bind (·.toNat?)).getD 1
+      match sg.toNat? with
+      | some sig =>
+        let s' := (List.range n).foldl (fun s _ =>
+          if s.watched.contains sig then (sqRun (sqSet s 0 (fun th => { th with script := [.deliver sig] })) 0 (fun _ => false) 10).1
+          else s) d.s
+        ({ d with s := s' }, "ok")
+      | none => (d, "bad-op")
+    | ["close"] =>
+      ({ d with s := (sqRun (sqSet d.s 0 (fun th => { th with script := [.close] })) 0 (fun _ => false) 10).1 }, "ok")
+    | ["pending"] =>
+      let r := sqRun (sqSet d.s 1 (fun th => { th with script := [.pending] })) 1 (fun _ => false) 4000
+      ({ d with s := r.1 }, s!"yield {fmtYields r.2.1}")
+    | ["wait"] =>
+      let r := sqRun (sqSet d.s 1 (fun th => { th with script := [.wait] })) 1 (fun _ => false) 4000
+      if r.2.2 then ({ d with s := r.1, dead := true }, "blocked") else ({ d with s := r.1 }, s!"yield {fmtYields r.2.1}")
+    | ["next"] =>
+      -- a fresh `forever()`: `SignalIterator::new` drains the pipe and starts a scan, then `poll_signal` loops
+      let r := sqRun (sqSet d.s 1 (fun th => { th with script := [], pc := .flush .forever })) 1
+        (fun o => o.yielded.isSome || o.ret == some .pollClosed) 8000
+      let s' := sqSet r.1 1 (fun th => { th with script := [], pc := .idle })
+      if r.2.2 then ({ d with s := r.1, dead := true }, "blocked")
+      else match r.2.1.getLast? with
+        | some o => (match o.yielded with
+            | some v => ({ d with s := s' }, s!"some {v}")
+            | none => ({ d with s := s' }, "none"))
+        | none => ({ d with s := s' }, "none")
+    | ["mpoll"] =>
+      if d.s.pipe > 0 then
+        let r := sqRun (sqSet d.s 1 (fun th => { th with script := [.pending] })) 1 (fun _ => false) 4000
+        ({ d with s := r.1 }, s!"ready {fmtYields r.2.1}")
+      else (d, "notready")
+    | ["poll"] =>
+      let r := sqRun (sqSet d.s 1 (fun th => { th with script := [.poll] })) 1 (fun _ => false) 4000
+      let txt := match r.2.1.getLast?.bind (·.ret) with
+        | some (.pollSignal v) => s!"some {v}"
+        | some .pollPending => "pending"
+        | some .pollClosed => "none"
+        | _ => "?"
+      ({ d with s := r.1 }, txt)
+    | ["woken"] => (d, "woken ?")
+    | _ => (d, "bad-op")
+
+
 partial def loop {σ} (h : IO.FS.Stream) (out : IO.FS.Stream) (st : σ) (f : σ → String → σ × String) :
     IO Unit := do
   let line ← h.getLine
@@ -786,5 +887,6 @@ def main (args : List String) : IO UInt32 := do
   | ["entries"] => loop stdin stdout ({} : EnDrv) enStep; return 0
   | ["flags"] => loop stdin stdout ({} : FlDrv) flStep; return 0
   | ["pipes"] => loop stdin stdout ({} : PiDrv) piStep; return 0
+  | ["frontends"] => loop stdin stdout ({} : SqDrv) sqStep; return 0
   | ["channel-table"] => (for l in chTable () do stdout.putStrLn l); return 0
   | _ => IO.eprintln "usage: driver registry"; return 2
